@@ -380,8 +380,99 @@ TheoryCase(n, sd) ==
       t == TFormulas(Nx(sd), k)
   IN [id |-> "th" \o ToString(n), theory |-> t.s, inputs |-> IF Val(t.sd) % 3 = 0 THEN <<"q/1">> ELSE <<>>]
 
+\* ---------------------------------------------------------------- pairs of programs (C03, C19)
+PairCase(n, sd) ==
+  LET k == 1 + (Val(sd) % 2)
+      l == Rules(Nx(sd), k, Depth)
+      c == Val(l.sd) % 100
+      extra == Rule(Nx(l.sd), Depth)
+      other == Rules(Nx(Nx(l.sd)), 1 + (Val(extra.sd) % 2), Depth)
+      right == IF c < 35 THEN l.s \o " " \o extra.s            \* one more rule
+               ELSE IF c < 55 THEN extra.s \o " " \o l.s       \* one more rule, in front
+               ELSE IF c < 65 THEN l.s                          \* identical
+               ELSE other.s                                     \* unrelated
+  IN [id |-> "pr" \o ToString(n), left |-> l.s, right |-> right]
+
+\* ---------------------------------------------------------------- external-equivalence tasks (C02, C19, C11)
+\* vocabulary: q/1 input, p/1 output, r/1 output or private, aux/1 private (on both sides: renaming), s/0, placeholder n.
+\* Programs are layered (aux over q; p over q, aux, not p/r; r over q, aux, p) so that most are tight and free of private
+\* recursion; the generator deliberately also emits some that are not (anthem must refuse those: C11).
+XVars == <<"X", "Y", "N0", "V1">>
+XTerm(sd, v) ==
+  LET c == Val(sd) % 100 IN
+  IF c < 50 THEN v ELSE IF c < 60 THEN v \o " + 1" ELSE IF c < 68 THEN v \o " - 1" ELSE IF c < 74 THEN "2 * " \o v
+  ELSE IF c < 80 THEN v \o " / 2" ELSE IF c < 84 THEN v \o " \\ 2" ELSE IF c < 88 THEN "0.." \o v ELSE IF c < 94 THEN Pick(Nx(sd), <<"0", "1", "2", "a">>)
+  ELSE "n"
+XCmp(sd, v) ==
+  LET rel == Pick(sd, Rels) IN
+  v \o " " \o rel \o " " \o Pick(Nx(sd), <<"0", "1", "2", "n", "n + 1", "a", "1..2">>)
+\* a body literal over the allowed predicates for a head of the given layer
+XLit(sd, v, layer) ==
+  LET c == Val(sd) % 100
+      pool == IF layer = 0 THEN <<"q">> ELSE IF layer = 1 THEN <<"q", "aux", "aux", "q">> ELSE <<"q", "aux", "p", "p">>
+      negpool == IF layer = 0 THEN <<"q">> ELSE <<"q", "aux", "p", "r">>
+      t == XTerm(Nx(sd), v)
+  IN IF c < 45 THEN Pick(Nx(Nx(sd)), pool) \o "(" \o t \o ")"
+     ELSE IF c < 65 THEN "not " \o Pick(Nx(Nx(sd)), negpool) \o "(" \o t \o ")"
+     ELSE IF c < 72 THEN "not not " \o Pick(Nx(Nx(sd)), negpool) \o "(" \o t \o ")"
+     ELSE IF c < 95 THEN XCmp(Nx(sd), v)
+     ELSE Pick(Nx(Nx(sd)), <<"p", "aux", "r">>) \o "(" \o v \o ")"        \* may break the layering on purpose
+XRule(sd, headp, layer) ==
+  LET v == Pick(sd, XVars)
+      ht == XTerm(Nx(sd), v)
+      choice == layer > 0 /\ Val(Nx(Nx(sd))) % 100 < 18
+      nb == Val(Nx(Nx(Nx(sd)))) % 3
+      s4 == Mix(sd, 3)
+      l1 == XLit(s4, v, layer)
+      l2 == XLit(Mix(s4, 1), v, layer)
+      body == "q(" \o v \o ")" \o (IF nb >= 1 THEN ", " \o l1 ELSE "") \o (IF nb >= 2 THEN ", " \o l2 ELSE "")
+      head == headp \o "(" \o ht \o ")"
+  IN (IF choice THEN "{" \o head \o "}" ELSE head) \o " :- " \o body \o "."
+XConstraint(sd) ==
+  LET v == Pick(sd, XVars) IN ":- " \o XLit(Nx(sd), v, 2) \o ", q(" \o v \o "), " \o XLit(Mix(sd, 2), v, 2) \o "."
+XProgram(sd) ==
+  LET c == Val(sd) % 100
+      a == IF c % 5 < 3 THEN XRule(Mix(sd, 1), "aux", 0) \o " " ELSE ""
+      p1 == XRule(Mix(sd, 2), "p", 1)
+      p2 == IF c % 7 < 2 THEN " " \o XRule(Mix(sd, 3), "p", 1) ELSE ""
+      rr == IF c % 3 = 0 THEN " " \o XRule(Mix(sd, 4), "r", 2) ELSE ""
+      k == IF c % 11 < 3 THEN " " \o XConstraint(Mix(sd, 5)) ELSE ""
+  IN a \o p1 \o p2 \o rr \o k
+XSpecBody(sd) == Pick(sd, <<"q(X)", "q(X) and X > 0", "q(X) and not exists Y (q(Y) and Y < X)", "q(X) and X != n", "q(X) or X = 1",
+                            "exists N$i (X = N$i and q(X))", "q(X) and aux(X)", "q(X) and exists Y (Y = X + 1 and q(Y))">>)
+XDir(sd) == Pick(sd, <<"", "", "", "(forward)", "(backward)", "(universal)">>)
+XSpec(sd) ==
+  LET c == Val(sd) % 100
+      f1 == "spec" \o XDir(Mix(sd, 1)) \o ": forall X (p(X) <-> " \o XSpecBody(Mix(sd, 2)) \o ")."
+      f2 == IF c % 3 = 0 THEN " spec" \o XDir(Mix(sd, 3)) \o ": forall X (p(X) -> q(X))." ELSE ""
+      f3 == IF c % 4 = 0 THEN " assumption" \o XDir(Mix(sd, 4)) \o ": forall X (q(X) -> " \o Pick(Mix(sd, 5), <<"X != 2", "X > 0", "X != a", "X >= n">>) \o ")." ELSE ""
+      f4 == IF c % 9 = 0 THEN " spec: forall X Y (p(X) and p(Y) -> X = Y)." ELSE ""
+      f5 == IF c % 13 = 0 THEN " spec" \o XDir(Mix(sd, 6)) \o ": forall X (r(X) <-> q(X) and not p(X))." ELSE ""
+  IN f1 \o f2 \o f3 \o f4 \o f5
+XUserGuide(sd) ==
+  LET c == Val(sd) % 100 IN
+  "input: q/1. output: p/1."
+  \o (IF c % 2 = 0 THEN " output: r/1." ELSE "")
+  \o " input: n -> integer."
+  \o (IF c % 5 = 0 THEN " assumption: forall X (q(X) -> " \o Pick(Nx(sd), <<"X > 0", "X != a", "X >= n", "exists N$i (N$i = X)">>) \o ")." ELSE "")
+  \o (IF c % 7 = 0 THEN " assumption: n > 0." ELSE "")
+ExtCase(n, sd) ==
+  LET l == XProgram(Mix(sd, 11))
+      c == Val(sd) % 100
+      r0 == XProgram(Mix(sd, 12))
+      right == IF c < 30 THEN l \o " " \o XRule(Mix(sd, 13), "p", 1)
+               ELSE IF c < 40 THEN l
+               ELSE IF c < 50 THEN l \o " " \o XConstraint(Mix(sd, 14))
+               ELSE r0
+      ug == XUserGuide(Mix(sd, 15))
+  IN IF c % 4 = 3
+     THEN [id |-> "xs" \o ToString(n), task |-> "external", spec |-> XSpec(Mix(sd, 16)), right |-> right, ug |-> ug]
+     ELSE [id |-> "xp" \o ToString(n), task |-> "external", left |-> l, right |-> right, ug |-> ug]
+
 Case(n, sd) ==
   CASE Mode = "program" -> ProgramCase(n, sd)
+    [] Mode = "ext" -> ExtCase(n, sd)
+    [] Mode = "pair" -> PairCase(n, sd)
     [] Mode = "theory" -> TheoryCase(n, sd)
     [] Mode = "sysrule" -> SysCase(n)
     [] Mode = "sysnest" -> NestCase(n)
